@@ -101,7 +101,28 @@ def run_case(case, ctx):
         return {"nontrivial": False, "labels": [case["sampler"], "rejected:documented-NaN-ValueError"]}
     _check_calls(P, ctx, case, "")
     sites = {c.get("site") for c in P.calls}
+    n_first = len(P.calls)  # likelihood calls of the (first) run
     labels = [case["sampler"], case["ns"], str(case["width"]), "pre:" + case["pre"], f"leak:{case['leak']}", f"sites:{len(sites)}"]
+    if case["sampler"] in ("smc", "emcee_smc") and case["seed"] % 2 and P.aspire.sampler is not None:
+        # the same sampler object is run a second time: every call is still checked, and the count covers both runs
+        import emcee
+        import minipcn
+
+        kw = P.sample_kwargs()
+        n = kw.pop("n_samples")
+        for k_ in ("sampler", "preconditioning", "preconditioning_kwargs", "return_history"):
+            kw.pop(k_, None)
+        minipcn.reset(); emcee.reset()
+        minipcn.step_budget = 500
+        try:
+            P.aspire.sampler.sample(n, **kw)
+            _check_calls(P, ctx, case, "second-run:")
+            labels.append("sampler-run-again")
+        except ValueError as e:
+            if "NaN values" not in str(e):
+                raise
+        finally:
+            minipcn.reset(); emcee.reset()
     resumed = False
     if payloads and case.get("resume_pick") is not None and case["sampler"] == "smc":
         blob = payloads[case["resume_pick"] % len(payloads)]
@@ -133,8 +154,8 @@ def run_case(case, ctx):
                 if lp.shape != ref.shape or bad.any():
                     ctx.fail("convert:prior-mismatch", "convert_to_samples handed the likelihood a log_prior that is not the prior of those points", case)
         labels.append("convert_to_samples")
-    if case.get("fault_call") is not None and len(P.calls) > 1:
-        k = case["fault_call"] % len(P.calls)
+    if case.get("fault_call") is not None and n_first > 1:
+        k = case["fault_call"] % n_first
         Pf = rc.Problem(case, fault_at=k)
         try:
             Pf.run(None)
